@@ -282,6 +282,12 @@ impl<'a> FnTr<'a> {
             match s {
                 Stmt::Local(l) => {
                     let init = l.init.as_ref().ok_or("let without init")?;
+                    // builder R: `let _ = x.set_a(..).set_b(..);` — a builder chain whose result is dropped
+                    if let (Pat::Wild(_), Expr::MethodCall(mc), true, true) = (&l.pat, &*init.expr, init.diverge.is_none(), !self.muts.is_empty()) {
+                        if self.builder_chain(mc, env, &mut st)? {
+                            continue;
+                        }
+                    }
                     // `let PAT = e?;` on an Option in an Option-returning function is
                     // `let Some(PAT) = e else { return None; };`
                     if init.diverge.is_none() && !self.reg.io.borrow().mode {
@@ -434,6 +440,19 @@ impl<'a> FnTr<'a> {
                             let tail = self.tail_expr(e, env, &mut st)?;
                             return Ok(Seq { stmts: st, tail });
                         }
+                        // builder R: `()` as a statement (the body of a `_ => ()` arm)
+                        Expr::Tuple(t) if t.elems.is_empty() => {}
+                        // builder R: `while let Some(x) = it.next() { body }` over an iterator the unit models as the
+                        // list of the items it yields (`continue`, `it.peek()` allowed in the body)
+                        Expr::While(w) if !self.muts.is_empty() => {
+                            self.while_let_loop(w, &stmts[..i], env, &mut st)?;
+                        }
+                        // builder R: `for i in a..b { body }` over an integer range
+                        Expr::ForLoop(f) if !self.muts.is_empty() => {
+                            self.for_range_loop(f, &stmts[..i], env, &mut st)?;
+                        }
+                        // builder R: a builder chain `x.set_a(..).set_b(..);` of `&mut self -> &mut Self` setters
+                        Expr::MethodCall(mc) if !self.muts.is_empty() && self.builder_chain(mc, env, &mut st)? => {}
                         // builder L: a statement-level `if` / `match` / block one of whose branches leaves the
                         // function: the rest of the block continues each branch (continuation duplicated)
                         Expr::If(ei) if !self.muts.is_empty() && contains_return(e) => {
@@ -772,6 +791,257 @@ impl<'a> FnTr<'a> {
                 Ok(Seq { stmts: stc, tail: Tail::If(t, Box::new(inner), Box::new(else_seq.clone())) })
             }
         }
+    }
+
+    /// builder R: translate a loop body as a unit function whose `&mut` parameters are the loop-carried
+    /// variables: every exit (end of the body, `continue` rewritten to `return`) yields their tuple
+    fn loop_body(&mut self, stmts: &[Stmt], env: &Env, carried: &[String], extra: &[(String, Ty)]) -> Res<Seq> {
+        let saved_ret = std::mem::replace(&mut self.ret, Ty::Unit);
+        let saved_muts = std::mem::replace(&mut self.muts, carried.to_vec());
+        let mut env_b = env.clone();
+        for (n, t) in extra {
+            env_b.insert(n.clone(), t.clone());
+        }
+        let r = self.block_tail(stmts, &mut env_b);
+        self.ret = saved_ret;
+        self.muts = saved_muts;
+        let mut seq = r?;
+        let cs = carried.to_vec();
+        wrap_exits(&mut seq, &mut self.counter, &|v: &str| exit_term(v, true, &cs));
+        Ok(seq)
+    }
+
+    /// builder R: the variables a loop carries: `&mut` parameters and `let mut` locals of the enclosing block
+    /// that the body may assign (over-approximated as in `assigned_roots`)
+    fn loop_carried(&self, body: &Block, before: &[Stmt], env: &Env, skip: &str) -> Vec<String> {
+        let mut cands: Vec<String> = self.muts.iter().filter(|m| !m.is_empty()).cloned().collect();
+        for s in before {
+            if let Stmt::Local(l) = s {
+                let p = match &l.pat {
+                    Pat::Type(pt) => &*pt.pat,
+                    p => p,
+                };
+                if let Pat::Ident(pi) = p {
+                    if pi.mutability.is_some() {
+                        let n = pi.ident.to_string();
+                        if !cands.contains(&n) {
+                            cands.push(n);
+                        }
+                    }
+                }
+            }
+        }
+        cands.retain(|c| c != skip && env.contains_key(c));
+        let be = Expr::Block(ExprBlock { attrs: vec![], label: None, block: body.clone() });
+        let assigned = assigned_roots(&be, &cands);
+        cands.retain(|c| assigned.contains(c));
+        cands
+    }
+
+    fn while_let_loop(&mut self, w: &ExprWhile, before: &[Stmt], env: &mut Env, st: &mut Stmts) -> Res<()> {
+        // `let Some(x) = it.next()`
+        let (x, it) = match &*w.cond {
+            Expr::Let(l) => {
+                let x = match &*l.pat {
+                    Pat::TupleStruct(ts) if ts.path.is_ident("Some") && ts.elems.len() == 1 => match &ts.elems[0] {
+                        Pat::Ident(pi) => pi.ident.to_string(),
+                        _ => return Err("while let: the pattern is not `Some(x)`".into()),
+                    },
+                    _ => return Err("while let: the pattern is not `Some(x)`".into()),
+                };
+                let it = match &*l.expr {
+                    Expr::MethodCall(m) if m.method == "next" && m.args.is_empty() => match &*m.receiver {
+                        Expr::Path(p) if p.path.segments.len() == 1 => p.path.segments[0].ident.to_string(),
+                        _ => return Err("while let: the iterator is not a local variable".into()),
+                    },
+                    _ => return Err("while let: the scrutinee is not `it.next()`".into()),
+                };
+                (x, it)
+            }
+            _ => return Err("unsupported `while` loop (only `while let Some(x) = it.next()`)".into()),
+        };
+        let el = match env.get(&it) {
+            Some(Ty::Arr(el)) => (**el).clone(),
+            _ => return Err(format!("while let: {} is not an iterator the unit models as a list", it)),
+        };
+        let peek = format!("{}_peek", it);
+        // `continue` → `return`, `it.peek()` → the variable `it_peek`
+        struct Rw<'a> {
+            it: &'a str,
+            peek: &'a str,
+            bad: Option<String>,
+        }
+        impl<'a> syn::visit_mut::VisitMut for Rw<'a> {
+            fn visit_expr_mut(&mut self, e: &mut Expr) {
+                match e {
+                    Expr::Continue(c) => {
+                        if c.label.is_some() {
+                            self.bad = Some("labelled continue".into());
+                        }
+                        *e = parse_quote!(return);
+                        return;
+                    }
+                    Expr::Break(_) => self.bad = Some("`break` inside a translated loop".into()),
+                    Expr::Return(_) => self.bad = Some("`return` inside a translated loop".into()),
+                    Expr::While(_) | Expr::Loop(_) => self.bad = Some("nested while/loop".into()),
+                    Expr::MethodCall(m) if m.method == "peek" && m.args.is_empty() && matches!(&*m.receiver, Expr::Path(p) if p.path.is_ident(self.it)) => {
+                        let id = Ident::new(self.peek, proc_macro2::Span::call_site());
+                        *e = parse_quote!(#id);
+                        return;
+                    }
+                    Expr::Path(p) if p.path.is_ident(self.it) => self.bad = Some("the iterator is used inside the loop other than by `peek()`".into()),
+                    _ => {}
+                }
+                syn::visit_mut::visit_expr_mut(self, e);
+            }
+        }
+        let mut body = w.body.clone();
+        let mut rw = Rw { it: &it, peek: &peek, bad: None };
+        syn::visit_mut::VisitMut::visit_block_mut(&mut rw, &mut body);
+        if let Some(b) = rw.bad {
+            return Err(format!("while let: {}", b));
+        }
+        let carried = self.loop_carried(&body, before, env, &it);
+        if carried.is_empty() {
+            return Err("while let: the body assigns nothing".into());
+        }
+        // read-only variables of the enclosing scope the body mentions
+        struct Ids(Vec<String>);
+        impl<'ast> syn::visit::Visit<'ast> for Ids {
+            fn visit_expr_path(&mut self, p: &'ast ExprPath) {
+                if p.path.segments.len() == 1 {
+                    self.0.push(p.path.segments[0].ident.to_string());
+                }
+            }
+        }
+        let mut ids = Ids(vec![]);
+        syn::visit::Visit::visit_block(&mut ids, &body);
+        let mut ro: Vec<String> = ids.0.into_iter().filter(|n| env.contains_key(n) && !carried.contains(n) && *n != x && *n != peek && *n != it).collect();
+        ro.sort();
+        ro.dedup();
+        let extra = vec![(x.clone(), el.clone()), (peek.clone(), Ty::Opt(Box::new(el.clone())))];
+        let seq = self.loop_body(&body.stmts, env, &carried, &extra)?;
+        let fallible = seq.fallible();
+        let k = self.extra_defs.iter().filter(|d| d.contains(".while_step")).count();
+        let suffix = if k == 0 { String::new() } else { format!("{}", k + 1) };
+        let step = format!("{}.while_step{}", self.fn_prefix, suffix);
+        let lp = format!("{}.while_loop{}", self.fn_prefix, suffix);
+        let cty: Vec<Ty> = carried.iter().map(|c| env.get(c).cloned().unwrap()).collect();
+        let tuple_ty = ret_shape(&Ty::Unit, &cty).lean();
+        let ps = |names: &[String], env: &Env| names.iter().map(|n| format!("({} : {})", lean_ident(n), env.get(n).unwrap().lean())).collect::<Vec<_>>().join(" ");
+        let mut text = String::new();
+        text.push_str(&format!("/-- one iteration of the `while let Some({}) = {}.next()` loop of `{}` (`continue` = return of the carried variables; `{}` = `{}.peek()`) -/\n", x, it, self.fn_prefix, peek, it));
+        if fallible {
+            text.push_str(&format!("def {} {} {} ({} : {}) ({} : Option {}) : Option {} := ", step, ps(&ro, env), ps(&carried, env), lean_ident(&x), el.lean(), peek, el.lean(), tuple_ty));
+            render_m(&seq, 1, &mut text);
+        } else {
+            text.push_str(&format!("def {} {} {} ({} : {}) ({} : Option {}) : {} :=\n  ", step, ps(&ro, env), ps(&carried, env), lean_ident(&x), el.lean(), peek, el.lean(), tuple_ty));
+            render_p(&seq, 1, &mut text);
+        }
+        text.push('\n');
+        let ro_args = ro.iter().map(|n| lean_ident(n)).collect::<Vec<_>>().join(" ");
+        let c_args = carried.iter().map(|n| lean_ident(n)).collect::<Vec<_>>().join(" ");
+        let c_pats = carried.iter().map(|n| lean_ident(n)).collect::<Vec<_>>().join(", ");
+        let tup = tuple_of(&carried);
+        text.push_str(&format!("\n/-- the loop: the iterator is the list of the items it yields -/\ndef {} {} : List {} → {} → Option {}\n", lp, ps(&ro, env), el.lean(), cty.iter().map(|t| t.lean()).collect::<Vec<_>>().join(" → "), tuple_ty));
+        text.push_str(&format!("  | [], {} => some {}\n", c_pats, tup));
+        text.push_str(&format!("  | {} :: rest, {} => do\n", lean_ident(&x), c_pats));
+        if fallible {
+            text.push_str(&format!("    let {} ← {} {} {} {} rest.head?\n", tup, step, ro_args, c_args, lean_ident(&x)));
+        } else {
+            text.push_str(&format!("    let {} := {} {} {} {} rest.head?\n", tup, step, ro_args, c_args, lean_ident(&x)));
+        }
+        text.push_str(&format!("    {} {} rest {}\n", lp, ro_args, c_args));
+        self.extra_defs.push(text);
+        self.reg.helpers.borrow_mut().push(step);
+        st.push((tup, Rhs::Act(format!("{} {} {} {}", lp, ro_args, lean_ident(&it), c_args))));
+        st.push((lean_ident(&it), Rhs::Pure(format!("([] : List {})", el.lean()))));
+        Ok(())
+    }
+
+    fn for_range_loop(&mut self, f: &ExprForLoop, before: &[Stmt], env: &mut Env, st: &mut Stmts) -> Res<()> {
+        let r = match &*f.expr {
+            Expr::Range(r) if matches!(r.limits, RangeLimits::HalfOpen(_)) => r,
+            _ => return Err("unsupported `for` loop (only `for i in a..b`)".into()),
+        };
+        let (lo, hi) = match (&r.start, &r.end) {
+            (Some(a), Some(b)) => (a, b),
+            _ => return Err("for: open range".into()),
+        };
+        let (b, tb) = self.ex(hi, env, st, None)?;
+        let (a, ta) = self.ex(lo, env, st, if matches!(tb, Ty::Int(_)) { Some(tb.clone()) } else { None })?;
+        let ity = match (&ta, &tb) {
+            (_, Ty::Int(_)) => tb.clone(),
+            (Ty::Int(_), _) => ta.clone(),
+            _ => Ty::Int("i32"),
+        };
+        struct Bad(Option<String>);
+        impl<'ast> syn::visit::Visit<'ast> for Bad {
+            fn visit_expr(&mut self, e: &'ast Expr) {
+                match e {
+                    Expr::Continue(_) | Expr::Break(_) | Expr::Return(_) => self.0 = Some("continue/break/return inside a `for` body".into()),
+                    _ => syn::visit::visit_expr(self, e),
+                }
+            }
+        }
+        let mut bad = Bad(None);
+        syn::visit::Visit::visit_block(&mut bad, &f.body);
+        if let Some(b) = bad.0 {
+            return Err(format!("for: {}", b));
+        }
+        let carried = self.loop_carried(&f.body, before, env, "");
+        if carried.is_empty() {
+            return Err("for: the body assigns nothing".into());
+        }
+        let (iv, extra) = match &*f.pat {
+            Pat::Wild(_) => ("_i".to_string(), vec![]),
+            Pat::Ident(pi) => (lean_ident(&pi.ident.to_string()), vec![(pi.ident.to_string(), ity.clone())]),
+            _ => return Err("for: unsupported pattern".into()),
+        };
+        let seq = self.loop_body(&f.body.stmts, env, &carried, &extra)?;
+        let mut body = String::new();
+        if seq.fallible() {
+            render_m(&seq, 3, &mut body);
+        } else {
+            body.push_str("some (");
+            render_p(&seq, 3, &mut body);
+            body.push(')');
+        }
+        let tup = tuple_of(&carried);
+        st.push((tup.clone(), Rhs::Act(format!("Rt.forRangeM {} {} (fun {} {} => {}) {}", paren(&a), paren(&b), iv, tup, body, tup))));
+        Ok(())
+    }
+
+    /// builder R: `x.set_a(u).set_b(v)` as a statement, where every method of the chain is a registered
+    /// `&mut self` setter without a value (`-> &mut Self` in the source): the calls in order, each written back to `x`
+    fn builder_chain(&mut self, mc: &ExprMethodCall, env: &mut Env, st: &mut Stmts) -> Res<bool> {
+        let mut chain: Vec<&ExprMethodCall> = vec![mc];
+        let mut recv = &*mc.receiver;
+        while let Expr::MethodCall(inner) = recv {
+            chain.push(inner);
+            recv = &*inner.receiver;
+        }
+        if chain.len() < 2 {
+            return Ok(false);
+        }
+        let tn = match self.place(recv, env) {
+            Ok((_, _, Ty::Named(tn))) => tn,
+            _ => return Ok(false),
+        };
+        chain.reverse();
+        for (k, c) in chain.iter().enumerate() {
+            match self.reg.fns.get(&format!("{}::{}", tn, c.method)) {
+                // the last call of the chain may answer a value that the statement drops
+                Some(sig) if sig.muts == ["self".to_string()] && (sig.ret == Ty::Unit || k + 1 == chain.len()) => {}
+                _ => return Ok(false),
+            }
+        }
+        for c in chain {
+            let mut call = (*c).clone();
+            call.receiver = Box::new(recv.clone());
+            let _ = self.ex(&Expr::MethodCall(call), env, st, None)?;
+        }
+        Ok(true)
     }
 
     /// builder R: the integer type a later statement forces on the variable `x` (declared without a type and
@@ -1460,15 +1730,23 @@ impl<'a> FnTr<'a> {
                     // (a bound error value is not put in scope: code that reads it does not translate)
                     // builder N: `Err(_)` of a `Result` translated as an `Option` (the error value is not bound)
                     Ok("none".into())
-                } else if ts.path.segments.len() >= 2 {
+                } else if ts.path.segments.len() >= 2 || matches!(ty, Ty::Named(tn) if self.reg.enum_data.get(tn).map(|vs| vs.iter().any(|(v, _)| *v == name)).unwrap_or(false)) {
                     // builder N: a variant with a payload of an enum the unit models (`EnumData`)
+                    // builder R: also named without its enum (`use DownlinkMacCommand::*`), and `V(..)`
                     let n = ts.path.segments.len();
-                    let (en, vn) = (ts.path.segments[n - 2].ident.to_string(), ts.path.segments[n - 1].ident.to_string());
+                    let (en, vn) = if n >= 2 {
+                        (ts.path.segments[n - 2].ident.to_string(), ts.path.segments[n - 1].ident.to_string())
+                    } else {
+                        (match ty { Ty::Named(tn) => tn.clone(), _ => unreachable!() }, name.clone())
+                    };
                     let en = if en == "Self" { self.self_ty.clone().unwrap_or_default() } else { en };
                     if !matches!(ty, Ty::Named(tn) if *tn == en) {
                         return Err(format!("pattern {} on {:?}", name, ty));
                     }
                     let tys = self.reg.enum_data.get(&en).and_then(|vs| vs.iter().find(|(v, _)| *v == vn)).map(|(_, t)| t.clone()).ok_or(format!("unsupported tuple-struct pattern {}", name))?;
+                    if ts.elems.len() == 1 && matches!(ts.elems[0], Pat::Rest(_)) {
+                        return Ok(format!(".{} {}", lean_ident(&vn), vec!["_"; tys.len()].join(" ")));
+                    }
                     if tys.len() != ts.elems.len() {
                         return Err(format!("pattern {}: arity", name));
                     }
@@ -2202,7 +2480,11 @@ impl<'a> FnTr<'a> {
             Expr::Path(p) => &p.path,
             _ => return Err("call of non-path".into()),
         };
-        let segs: Vec<String> = p.segments.iter().map(|s| s.ident.to_string()).collect();
+        let mut segs: Vec<String> = p.segments.iter().map(|s| s.ident.to_string()).collect();
+        // builder R: `super::f(..)` names the module-level function `f`
+        if segs.len() == 2 && ["super", "self", "crate"].contains(&segs[0].as_str()) && (self.reg.fns.contains_key(&segs[1]) || self.local_fns.contains_key(&segs[1])) {
+            segs.remove(0);
+        }
         let name = segs.join("::");
         if (name == "Ok" || name == "Err") && self.reg.io.borrow().mode {
             return crate::phyio::ok_err(self, &name, c, env, st, expect);
@@ -2592,6 +2874,10 @@ impl<'a> FnTr<'a> {
                     return Err(format!("`.into()` from {} with unknown target", tn));
                 }
                 let key = format!("{}::{}", tn, name);
+                // builder R: `.clone()` of a modelled value is the value
+                if name == "clone" && m.args.is_empty() && !self.reg.fns.contains_key(&key) {
+                    return Ok((r, tr.clone()));
+                }
                 let sig = match self.reg.fns.get(&key).cloned() {
                     Some(s) => s,
                     None => self.method_on_demand(tn, &name)?,
@@ -2618,7 +2904,12 @@ impl<'a> FnTr<'a> {
             Ty::Arr(el) => match name.as_str() {
                 "is_empty" => Ok((format!("{}.isEmpty", paren(&r)), Ty::Bool)),
                 "len" => Ok((format!("(Int.ofNat {}.length)", paren(&r)), Ty::Int("usize"))),
-                "iter" => Ok((r, tr.clone())),
+                "iter" | "peekable" => Ok((r, tr.clone())),
+                // builder R: `it.filter_map(Result::ok)` on an iterator of `Result`s (modelled as a list of options)
+                "filter_map" if matches!(&**el, Ty::Opt(_)) && matches!(m.args.first(), Some(Expr::Path(p)) if path_str(&p.path) == "Result::ok") => match &**el {
+                    Ty::Opt(inner) => Ok((format!("(List.filterMap id {})", paren(&r)), Ty::Arr(inner.clone()))),
+                    _ => unreachable!(),
+                },
                 "find" => {
                     let cl = match m.args.first() {
                         Some(Expr::Closure(cl)) if cl.inputs.len() == 1 => cl,
@@ -2691,6 +2982,9 @@ fn unify(a: &Ty, b: &Ty) -> Res<Ty> {
     match (a, b) {
         (Ty::IntLit, Ty::Int(_)) => Ok(b.clone()),
         (Ty::Int(_), Ty::IntLit) => Ok(a.clone()),
+        // builder R: an untyped `None` (`Opt(IntLit)`) takes the type of the other branch
+        (Ty::Opt(x), Ty::Opt(_)) if **x == Ty::IntLit => Ok(b.clone()),
+        (Ty::Opt(_), Ty::Opt(y)) if **y == Ty::IntLit => Ok(a.clone()),
         (Ty::Opt(x), Ty::Opt(y)) => Ok(Ty::Opt(Box::new(unify(x, y)?))),
         (Ty::Tuple(xs), Ty::Tuple(ys)) if xs.len() == ys.len() => Ok(Ty::Tuple(xs.iter().zip(ys.iter()).map(|(x, y)| unify(x, y)).collect::<Res<Vec<_>>>()?)),
         _ if a == b => Ok(a.clone()),
